@@ -234,6 +234,14 @@ func (b netBackend) Listen(network, address string) (net.Listener, error) {
 		if err != nil {
 			return nil, &net.OpError{Op: "listen", Net: network, Err: err}
 		}
+		// a wildcard listener reports the wildcard as its own address (its
+		// connections report the address that was dialled)
+		if orig, e2 := net.ResolveTCPAddr("tcp", address); e2 == nil && (orig.IP == nil || orig.IP.IsUnspecified()) {
+			if orig.IP == nil {
+				orig.IP = net.IPv6unspecified
+			}
+			ta = &net.TCPAddr{IP: orig.IP, Port: ta.Port}
+		}
 		// 203.0.113.0/24 (TEST-NET-3) stands for "not an address of this host"
 		if ip4 := ta.IP.To4(); ip4 != nil && ip4[0] == 203 && ip4[1] == 0 && ip4[2] == 113 {
 			return nil, &net.OpError{Op: "listen", Net: network, Addr: ta, Err: os.NewSyscallError("bind", syscall.EADDRNOTAVAIL)}
@@ -243,7 +251,10 @@ func (b netBackend) Listen(network, address string) (net.Listener, error) {
 			n.nextPort++
 			ta.Port = n.nextPort
 			n.mu.Unlock()
-			key = ta.String()
+			key = net.JoinHostPort("127.0.0.1", fmt.Sprint(ta.Port))
+			if !ta.IP.IsUnspecified() {
+				key = ta.String()
+			}
 		}
 		l, err := n.Listen(key)
 		if err != nil {
